@@ -337,6 +337,61 @@ func init() {
 		stop.Store(true)
 		wg.Wait()
 		time.Sleep(50 * time.Millisecond)
+		// ---- a real truncation (the workload's ledger rarely grows past the 1000 ancestors one needs) on a third
+		// node, while readers that take no ledger lock copy the very vertices it archives (ReadVertex serves
+		// parent fetches of peers; stream consumers read vertices after the streaming goroutine let go)
+		{
+			tn := newRaceNode(ver)
+			defer tn.cancel()
+			if _, err := tn.ab.CreateGenesis("Genesis Vertex", spice.Melange{Currency: 1 << 40}, []byte{}, ws[0].Address()); err != nil {
+				return err
+			}
+			var early [][32]byte
+			for i := 0; i < 1030; i++ {
+				t, _ := transaction.New("t", spice.Melange{Currency: 1}, nil, ws[1+i%3].Address(), ws[0])
+				v, err := tn.ab.CreateLeaf(ctx, &t)
+				if err != nil {
+					return fmt.Errorf("truncation phase: proposal %d: %v", i, err)
+				}
+				if i < 120 {
+					early = append(early, v.Hash)
+				}
+			}
+			var twg sync.WaitGroup
+			var tstop atomic.Bool
+			for g := 0; g < 3; g++ {
+				twg.Add(1)
+				go func(g int) {
+					defer twg.Done()
+					for i := g; !tstop.Load(); i++ {
+						if v, err := tn.ab.ReadVertex(ctx, early[i%len(early)]); err == nil {
+							_ = v.CreatedAt.UnixNano() + v.Transaction.CreatedAt.UnixNano()
+						}
+					}
+				}(g)
+			}
+			twg.Add(1)
+			go func() {
+				defer twg.Done()
+				for !tstop.Load() {
+					for v := range tn.ab.StreamDAG(ctx) {
+						if v != nil {
+							_ = v.CreatedAt.UnixNano() + int64(v.Weight) + int64(len(v.Transaction.Subject))
+						}
+					}
+				}
+			}()
+			time.Sleep(20 * time.Millisecond)
+			terr := tn.ab.VerifTruncate(ctx)
+			time.Sleep(20 * time.Millisecond)
+			tstop.Store(true)
+			twg.Wait()
+			counts["truncate-with-lock-free-readers"]++
+			if terr != nil {
+				counts["truncate-with-lock-free-readers.err"]++
+			}
+			c.Rep.Extra["race_truncation_archived"] = len(tn.ab.VerifSnapshot().CpVertices)
+		}
 		for k, n := range counts {
 			c.Rep.Dist[k] += n
 			c.Rep.Evals += n
